@@ -785,6 +785,16 @@ func c19Stateless(r *core.Run) {
 		p.Func("capability", "Target", "SetCapabilities"), p.Func("capability", "VersionRange", "contains"),
 		p.Func("capability", "", "VersionCompareSemantic"), p.Func("capability", "DefaultVersion", "Has"),
 	}
+	listed := map[*ssa.Function]bool{}
+	for _, fn := range fns {
+		listed[fn] = true
+	}
+	// ... and every other function of the package (Target.Version, the Version implementation, constructors)
+	for _, fn := range p.ModuleFuncs() {
+		if fn.Blocks != nil && fn.Pkg != nil && fn.Pkg.Pkg.Path() == core.Module+"/capability" && !listed[fn] && fn.Name() != "init" && !p.FuncInOverlay(fn) && fn.Synthetic == "" {
+			fns = append(fns, fn)
+		}
+	}
 	for _, fn := range fns {
 		bad := ""
 		for _, b := range fn.Blocks {
